@@ -652,3 +652,69 @@ Proof.
       by (apply results_ext; intros i; rewrite idx_wrap; reflexivity).
     apply IH; lia.
 Qed.
+
+(* ------------------------------------------------------------------------- *)
+(* windows that contain Syncs: only ADDING or REMOVING a server resets cursors  *)
+(* ------------------------------------------------------------------------- *)
+
+(* an op of a window in which the ready set is stable: a pick with upstream list [ups], or a
+   ClusterInfo.Sync that adds / removes no server and leaves the disabled flags as they are
+   (identical object re-delivered, or an edit of flow control / logging / other policies) *)
+Definition window_op (s0 : cstate) (ups : eplist) (o : cop) : Prop :=
+  o = OPick ups \/
+  exists es ds, o = OServers es ds /\ same_set es (servers s0) = true /\
+                (forall e, zin e ds = zin e (disabled s0)).
+
+Definition is_pick (o : cop) : bool := match o with OPick _ => true | _ => false end.
+Definition npicks (ops : list cop) : nat := List.length (filter is_pick ops).
+Definition pickres (ops : list cop) (rs : list pres) : list pres :=
+  map snd (filter (fun p => is_pick (fst p)) (combine ops rs)).
+
+Lemma pop_ext cur ups ok ok' : (forall e, ok e = ok' e) -> pop cur ups ok = pop cur ups ok'.
+Proof. intros H. unfold pop. rewrite (filter_ext ok ok' H). reflexivity. Qed.
+
+Lemma window_picks s0 ups : forall ops s,
+  servers s = servers s0 -> (forall e, zin e (disabled s) = zin e (disabled s0)) ->
+  (forall e, is_ok s e = is_ok s0 e) ->
+  Forall (window_op s0 ups) ops ->
+  pickres ops (crun s ops) = snd (pops (curs s) (repeat ups (npicks ops)) (is_ok s0)).
+Proof.
+  induction ops as [|o r IH]; intros s Hs Hd Hok W; [reflexivity|].
+  inversion W as [|? ? W1 W2]; subst. destruct W1 as [->|(es & ds & -> & SS & DS)].
+  - (* a pick *)
+    unfold npicks, pickres. cbn [crun cstep filter is_pick List.length repeat pops].
+    rewrite (pop_ext (curs s) ups (is_ok s) (is_ok s0) Hok).
+    destruct (pop (curs s) ups (is_ok s0)) as [c p] eqn:E.
+    set (s1 := {| servers := servers s; readyset := readyset s; disabled := disabled s; curs := c |}).
+    specialize (IH s1 Hs Hd Hok W2). unfold npicks, pickres in IH. cbn [curs s1] in IH.
+    cbn [combine filter fst is_pick map snd].
+    destruct (pops c (repeat ups (List.length (filter is_pick r))) (is_ok s0)) as [c2 l] eqn:E2.
+    cbn [snd] in *. f_equal. exact IH.
+  - (* a Sync that adds / removes nothing: cursors kept *)
+    unfold npicks, pickres. cbn [crun cstep filter is_pick].
+    rewrite Hs, SS.
+    set (s1 := {| servers := servers s0; readyset := readyset s; disabled := ds; curs := curs s |}).
+    cbn [combine filter fst is_pick].
+    assert (Hok1 : forall e, is_ok s1 e = is_ok s0 e).
+    { intros e. rewrite <- Hok. unfold is_ok, s1; cbn [servers readyset disabled]. rewrite Hs, DS, Hd. reflexivity. }
+    specialize (IH s1 eq_refl DS Hok1 W2). unfold npicks, pickres in IH. exact IH.
+Qed.
+
+(* C14_strict across Syncs: in a window whose ops are picks of one policy (explicit subset [ups]) and Syncs that
+   add or remove NO server and change no disabled flag, every ready endpoint gets floor(N/k) or ceil(N/k) of the
+   N picks — however many such Syncs are interleaved, whatever else they edit *)
+Theorem strict_sync s ups ops e :
+  let rd := filter (is_ok s) ups in
+  let k := Z.of_nat (List.length rd) in
+  let N := Z.of_nat (npicks ops) in
+  2 <= k -> NoDup rd -> In e rd ->
+  0 <= get (curs s) rd -> get (curs s) rd + N < two64 ->
+  Forall (window_op s ups) ops ->
+  N / k <= pcount e (pickres ops (crun s ops)) <= ceil_div N k.
+Proof.
+  intros rd k N Hk ND Hin H0 Hw W.
+  rewrite (window_picks s ups ops s eq_refl (fun _ => eq_refl) (fun _ => eq_refl) W).
+  assert (Hw' : get (curs s) rd + Z.of_nat 0 + Z.of_nat (npicks ops) < two64) by (unfold N in Hw; lia).
+  pose proof (strict (curs s) ups (is_ok s) e 0 (npicks ops) Hk ND Hin H0 Hw') as S.
+  cbn [Nat.add skipn] in S. exact S.
+Qed.
